@@ -162,11 +162,11 @@ def _exec_chunk(items):
     out = []
     for it in items:
         try:
-            text = print_doc(it['doc'], it['fseed'], it['pinned'], it.get('noise'))
+            text = it['text'] if it.get('text') is not None else print_doc(it['doc'], it['fseed'], it['pinned'], it.get('noise'))
         except AssertionError as ex:
             out.append({'tid': it['tid'], 'skip': 'printer: %s' % ex})
             continue
-        result, links, db = pj.parse_and_project(text, allow=it['allow'], links=it['want'] == 'links')
+        result, links, db = pj.parse_and_project(text, allow=it['allow'], links=it['want'] in ('links', 'selflinks'))
         rec = {'tid': it['tid'], 'doc': it['doc'], 'allow': it['allow'], 'want': it['want'],
                'result': result, 'links': links, 'obs': {'off': {'kind': 'none'}, 'same_dbml': True, 'same_sql': True,
                                                          'store': {'t': 0, 'c': 0, 'k': '', 'v': ''}, 'after': {'kind': 'none'}},
